@@ -51,6 +51,9 @@ ENG = {
     'effects': ('sa/effects.py', 'mutation/freshness analysis over the call-graph closure'),
     'normalise': ('sa/normalise.py', 'semantics-preserving canonicalisation and desugaring of every parsed module (one spelling per idiom) before any rule reads it'),
     'inline': ('sa/inline.py', 'helper inliner (guard clauses, search loops, nested calls, expression form) used when a rule reads through an extracted helper'),
+    'strval': ('sa/strval.py + sa/rules/forms.py', 'abstract string evaluation of text-building functions into skeletons with labelled holes; statement-form obligations'),
+    'peval': ('sa/peval.py', 'partial evaluation of a function per constant of a closed set (reference kinds): tests on the kind decided, calls/subscripts reached recorded'),
+    'specialise': ('sa/inline.py (types=) + sa/rules/wiring.py + sa/rules/common.py:expanded', 'typed specialisation: methods resolved through declared classes, isinstance tests decided, helper-expanded views of functions'),
     'flows': ('sa/flows.py', 'reader token classes per model attribute (grammar -> action -> blueprint -> model) and light typing of renderer variables'),
 }
 engines = [{'name': k, 'path': ENG[k][0], 'serves_properties': sorted(set(v)), 'kind_free_text': ENG[k][1]}
